@@ -6,6 +6,7 @@ import ObiVerif.Model.WritePgzip
 import ObiVerif.Model.WriteReg
 import ObiVerif.Model.WriteOpen
 import ObiVerif.Model.WriteGlue
+import ObiVerif.Model.WriteSide
 import ObiVerif.Driver.Util
 /-! line protocol for C18
 
@@ -31,6 +32,10 @@ import ObiVerif.Driver.Util
 * `cmd <command> empty-<scenario> <n> <N> <format>`: a command whose result is empty; `N` = size of the output of the
   same command on a regular file (used as the length of the gzip stream of the empty input); the glue model says
   whether anything has to be written
+* `cmd obiclean <side-scenario> <n> <N> fasta`: the side files of obiclean (`--save-ratio`, `--save-graph`), `N` = size
+  of the side file at fault on a run without fault: `Model/WriteSide.lean` `exitSide` (the side files are written by
+  `main` before the writer of the sequences starts; the ratio table through a `bufio.Writer` in calls of about 50 bytes,
+  a graph file in one `WriteString`)
 * `cmd <command> <scenario> …` a real command in a subprocess; `nofault…` scenarios must exit 0, all the others
   non-zero (process model with one failing writer); scenarios containing `dyn-`: the failing output is written by a
   goroutine that registers its pipe itself under a cover taken by `main` (`Model/WriteReg.lean`): the dynamic model is
@@ -259,9 +264,40 @@ def runGlue : List String → String
     | _, _, _, _, _, _, _, _ => "bad-op"
   | _ => "bad-op"
 
+/-- the side files of `obiclean`: which files the scenario asks for and what the file system does to them -/
+def runSide (sc : String) (n : Nat) : String :=
+  let table : List Bytes := List.replicate (n / 50) (List.replicate 50 0) ++ [List.replicate (n % 50) 0]
+  let graph : List Bytes := [List.replicate n 0]
+  let good : Slot := ⟨true, none, 1000000000, false⟩
+  let full : Slot := ⟨true, none, 0, false⟩          -- /dev/full: opened, takes no byte
+  let closed : Slot := ⟨false, none, 1000000000, false⟩   -- missing directory, a directory in the way
+  let sides : Option (List WriteSide.Side) :=
+    match sc with
+    | "side-ratio-devfull" => some [⟨true, full, table⟩]
+    | "side-ratio-nodir" => some [⟨true, closed, table⟩]
+    | "side-ratio-isdir" => some [⟨true, closed, table⟩]
+    | "side-graph-devfull" => some [⟨false, full, graph⟩, ⟨false, good, graph⟩]
+    | "side-graph-isdir" => some [⟨false, good, graph⟩, ⟨false, closed, graph⟩]
+    | "side-graph-mkdir" => some [⟨false, closed, graph⟩, ⟨false, closed, graph⟩]
+    | "nofault-side-ratio" => some [⟨true, good, table⟩]
+    | "nofault-side-graph" => some [⟨false, good, graph⟩, ⟨false, good, graph⟩]
+    | "nofault-side-both" => some [⟨false, good, graph⟩, ⟨false, good, graph⟩, ⟨true, good, table⟩]
+    | _ => none
+  match sides with
+  | none => "bad-op"
+  | some sides =>
+    match WriteSide.exitSide sides [false] (canon 1) with
+    | some 0 => "exit0"
+    | some _ => "exit-nonzero"
+    | none => "no-exit"
+
 def run (line : String) : String :=
   match words line with
   | "glue" :: rest => runGlue rest
+  | "cmd" :: "obiclean" :: sc :: n :: nn :: "fasta" :: _ =>
+    match n.toNat?, nn.toNat? with
+    | some _, some nn => if nn = 0 then "bad-op" else runSide sc nn
+    | _, _ => "bad-op"
   | "cmd" :: _ :: sc :: _ :: nn :: fm :: _ =>
     -- the verdict of the failing output: `Model/WriteOpen.lean` (it cannot be opened: missing / read-only directory, a
     -- directory or a file in the way; or it is opened, in append mode or not, and the device takes no byte)
